@@ -1,5 +1,9 @@
 import Xp.Proofs.C16WorldRec
+import Xp.Proofs.C16Enrich
+import Xp.Model.C16Skel
 import Xp.Gen.C16
+import Xp.Gen.C16Skel
+import Xp.Gen.C16Enrich
 /-
 C16 — establishing package objects is all-or-nothing and respects the
 active/inactive role.
@@ -1290,5 +1294,443 @@ example :
       [[⟨10, none, none⟩, ⟨1, some false, some true⟩], [⟨10, some true, some true⟩, ⟨1, some false, some true⟩]] := by decide
 
 end StateExamples
+
+/-! ## 11. Call skeletons regenerated from the source on every run
+
+`Xp/Gen/C16Skel.lean` lists, in source order, the calls (and `return`s) of every Go function the
+model mirrors, extracted with go/ast from the current tree. `Model/C16Skel.lean` (and, for
+`enrichControlledResource`, `Model/C16Enrich.lean`) declares the skeleton each model definition
+was written against, entry by entry. A call added, dropped or moved in the code breaks the
+obligation of that function before any scenario runs. -/
+
+theorem skeleton_Establish : Xp.Gen.c16SkelEstablish = skelEstablish := by decide
+theorem skeleton_addLabels : Xp.Gen.c16SkelAddLabels = skelAddLabels := by decide
+theorem skeleton_validate : Xp.Gen.c16SkelValidate = skelValidate := by decide
+theorem skeleton_enrichControlledResource : Xp.Gen.c16SkelEnrich = skelEnrich := by decide
+/-- the FIELD WRITES of `enrichControlledResource` (left-hand sides of its assignments, per case of
+its type switch): the paths `PObj.frame` blanks out, and no other -/
+theorem skeleton_enrichControlledResource_writes : Xp.Gen.c16AssignEnrich = assignEnrich := by decide
+theorem skeleton_getWebhookTLSCert : Xp.Gen.c16SkelGetWebhookTLSCert = skelGetWebhookTLSCert := by decide
+theorem skeleton_establish : Xp.Gen.c16SkelEstablishPhase = skelEstablishPhase := by decide
+theorem skeleton_create : Xp.Gen.c16SkelCreate = skelCreate := by decide
+theorem skeleton_update : Xp.Gen.c16SkelUpdate = skelUpdate := by decide
+theorem skeleton_ReleaseObjects : Xp.Gen.c16SkelReleaseObjects = skelReleaseObjects := by decide
+theorem skeleton_GetPackageOwnerReference :
+    Xp.Gen.c16SkelGetPackageOwnerReference = skelGetPackageOwnerReference := by decide
+theorem skeleton_Reconcile : Xp.Gen.c16SkelReconcile = skelReconcile := by decide
+theorem skeleton_deactivateRevision : Xp.Gen.c16SkelDeactivateRevision = skelDeactivateRevision := by decide
+
+/-! ## 12. The content of a package object: `addLabels` and `enrichControlledResource`
+
+`Model/C16Enrich.lean`: before `validate` reads the cluster, `Establish` merges the parent's
+`spec.commonLabels` into every package object and — for a controlling parent only — renames a
+webhook configuration after the package and points its webhooks (and the conversion webhook of a
+CRD) at the package's service with the CA bundle, or refuses a CRD with webhook conversion when
+there is no CA bundle. Proved for every object, parent, namespace and certificate:
+the function writes nothing but those fields (`enrich_frame`), writes them as specified
+(`enrich_result`), refuses exactly what the guard of `validateOne` refuses
+(`enrich_refuses_iff`, `validate_guard_is_enrich`), is idempotent (it rewrites the parser's
+object in place), names a webhook configuration after the package alone (`enrich_name`: two
+revisions of one package take over the SAME object), and an inactive parent rewrites nothing
+(`prepare_inactive`). The definitions are tied to the code by the two skeletons above, by the
+constants and by `prepare_matches_code`: 140 rows produced by the real `addLabels` /
+`enrichControlledResource`. -/
+
+/-- the frame: whatever `enrichControlledResource` does to an object, the object with the
+permitted fields blanked out — the name and the webhooks' client-config fields caBundle,
+service.name/namespace/port of a webhook configuration; the same fields below
+spec.conversion.webhook.clientConfig of a CRD whose strategy is Webhook — is unchanged. In
+particular labels, `rest`, the kind, the number, names and `rest` of the webhooks, `url` and
+`service.path` of every client config, the conversion strategy and review versions, and the NAME
+of everything that is not a webhook configuration. -/
+theorem enrich_frame (ns cert : String) (p : EParent) (o o' : PObj)
+    (h : enrich ns cert p o = .ok o') :
+    o'.frame = o.frame ∧ o'.rest = o.rest ∧ o'.labels = o.labels ∧
+    (match o.shape, o'.shape with
+     | .validating hs, .validating hs' => hs'.map (fun h => (h.name, h.rest)) = hs.map (fun h => (h.name, h.rest))
+     | .mutating hs, .mutating hs' => hs'.map (fun h => (h.name, h.rest)) = hs.map (fun h => (h.name, h.rest))
+     | .crd c, .crd c' => o'.name = o.name ∧ c'.map (·.strategy) = c.map (·.strategy)
+     | .other, .other => o' = o
+     | _, _ => False) := by
+  unfold enrich at h
+  cases o with
+  | mk name labels shape rest =>
+    cases shape with
+    | validating hs =>
+      simp only at h
+      by_cases hc : cert = ""
+      · rw [if_pos hc] at h; injection h with h; subst h; simp
+      · rw [if_neg hc] at h; injection h with h; subst h
+        simp [PObj.frame, enrichHooks_frame, enrichHooks_shape]
+    | mutating hs =>
+      simp only at h
+      by_cases hc : cert = ""
+      · rw [if_pos hc] at h; injection h with h; subst h; simp
+      · rw [if_neg hc] at h; injection h with h; subst h
+        simp [PObj.frame, enrichHooks_frame, enrichHooks_shape]
+    | crd c =>
+      cases c with
+      | none => simp only at h; injection h with h; subst h; simp
+      | some c =>
+        simp only at h
+        cases hcv : enrichConv ns p.label cert c with
+        | error e => rw [hcv] at h; cases h
+        | ok c' =>
+          rw [hcv] at h; injection h with h; subst h
+          have hf := enrichConv_frame ns p.label cert c c' hcv
+          refine ⟨by simp [PObj.frame, hf], rfl, rfl, rfl, ?_⟩
+          unfold enrichConv at hcv
+          by_cases hs : c.strategy = webhookStrategy
+          · rw [if_pos hs] at hcv
+            by_cases hc : cert = ""
+            · rw [if_pos hc] at hcv; cases hcv
+            · rw [if_neg hc] at hcv; injection hcv with hcv; subst hcv; rfl
+          · rw [if_neg hs] at hcv; injection hcv with hcv; subst hcv; rfl
+    | other => simp only at h; injection h with h; subst h; simp
+
+/-- what is written: with a certificate, every webhook of a webhook configuration and the
+conversion webhook of a CRD (strategy Webhook) carries the certificate as CA bundle and the
+service `label` / `ns` / 9443; the review versions of the conversion are kept -/
+theorem enrich_result (ns cert : String) (p : EParent) (o o' : PObj)
+    (h : enrich ns cert p o = .ok o') (hc : cert ≠ "") :
+    match o.shape, o'.shape with
+    | .validating _, .validating hs' => ∀ h ∈ hs', h.cc.filled ns p.label cert = true
+    | .mutating _, .mutating hs' => ∀ h ∈ hs', h.cc.filled ns p.label cert = true
+    | .crd (some c), .crd (some c') =>
+      c.strategy = webhookStrategy →
+        ∃ w cc, c'.webhook = some w ∧ w.cc = some cc ∧ cc.filled ns p.label cert = true ∧
+          w.reviewVersions = (c.webhook.map (·.reviewVersions)).getD []
+    | .crd none, .crd none => True
+    | .other, .other => True
+    | _, _ => False := by
+  unfold enrich at h
+  cases o with
+  | mk name labels shape rest =>
+    cases shape with
+    | validating hs =>
+      simp only at h; rw [if_neg hc] at h; injection h with h; subst h
+      exact enrichHooks_filled ns p.label cert hs
+    | mutating hs =>
+      simp only at h; rw [if_neg hc] at h; injection h with h; subst h
+      exact enrichHooks_filled ns p.label cert hs
+    | crd c =>
+      cases c with
+      | none => simp only at h; injection h with h; subst h; trivial
+      | some c =>
+        simp only at h
+        cases hcv : enrichConv ns p.label cert c with
+        | error e => rw [hcv] at h; cases h
+        | ok c' =>
+          rw [hcv] at h; injection h with h; subst h
+          intro hs
+          exact (enrichConv_filled ns p.label cert c c' hcv hs).2
+    | other => simp only at h; injection h with h; subst h; trivial
+
+/-- `enrichControlledResource` fails exactly for a CRD whose conversion strategy is Webhook when
+there is no certificate -/
+theorem enrich_refuses_iff (ns cert : String) (p : EParent) (o : PObj) :
+    (∃ e, enrich ns cert p o = .error e) ↔ (needsCAOf o = true ∧ cert = "") := by
+  unfold enrich needsCAOf
+  cases o with
+  | mk name labels shape rest =>
+    cases shape with
+    | validating hs => by_cases hc : cert = "" <;> simp [hc]
+    | mutating hs => by_cases hc : cert = "" <;> simp [hc]
+    | crd c =>
+      cases c with
+      | none => simp
+      | some c =>
+        simp only
+        have := enrichConv_error_iff ns p.label cert c
+        cases hcv : enrichConv ns p.label cert c with
+        | error e =>
+          have h2 := this.mp ⟨e, hcv⟩
+          simp [h2.1, h2.2]
+        | ok c' =>
+          have h2 : ¬ (c.strategy = webhookStrategy ∧ cert = "") := fun hh => by
+            obtain ⟨e, he⟩ := this.mpr hh
+            rw [hcv] at he; cases he
+          simp only [reduceCtorEq, exists_false, false_iff, beq_iff_eq]
+          exact h2
+    | other => simp
+
+/-- the guard `control && d.needsCA && p.tls != .present` of `validateOne` (Model/C16.lean) IS
+`enrichControlledResource` refusing the object: for a secret whose certificate is not empty (an
+empty one never gets past `getWebhookTLSCert`), preparing the object fails exactly when the guard
+fires, with `needsCA` read off the structured object -/
+theorem validate_guard_is_enrich (ns crt : String) (t : Tls) (control : Bool) (p : EParent) (o : PObj)
+    (hcrt : crt ≠ "") :
+    (∃ e, prepare ns crt t control p o = .error e) ↔ (control && needsCAOf o && t != .present) = true := by
+  unfold prepare prepareC
+  cases control with
+  | false => simp
+  | true =>
+    simp only [if_true, Bool.true_and]
+    rw [enrich_refuses_iff]
+    have hn : needsCAOf { o with labels := addLabels p.common o.labels } = needsCAOf o := rfl
+    rw [hn]
+    cases t <;> simp [certOf, hcrt]
+
+/-- `enrichControlledResource` rewrites the parser's object in place; doing it again changes nothing -/
+theorem enrich_idempotent (ns cert : String) (p : EParent) (o o' : PObj)
+    (h : enrich ns cert p o = .ok o') : enrich ns cert p o' = .ok o' := by
+  unfold enrich at h
+  cases o with
+  | mk name labels shape rest =>
+    cases shape with
+    | validating hs =>
+      simp only at h
+      by_cases hc : cert = ""
+      · rw [if_pos hc] at h; injection h with h; subst h; simp [enrich, hc]
+      · rw [if_neg hc] at h; injection h with h; subst h
+        simp [enrich, hc, enrichHooks_idem, enrichName]
+        cases pkgOwner p <;> rfl
+    | mutating hs =>
+      simp only at h
+      by_cases hc : cert = ""
+      · rw [if_pos hc] at h; injection h with h; subst h; simp [enrich, hc]
+      · rw [if_neg hc] at h; injection h with h; subst h
+        simp [enrich, hc, enrichHooks_idem, enrichName]
+        cases pkgOwner p <;> rfl
+    | crd c =>
+      cases c with
+      | none => simp only at h; injection h with h; subst h; simp [enrich]
+      | some c =>
+        simp only at h
+        cases hcv : enrichConv ns p.label cert c with
+        | error e => rw [hcv] at h; cases h
+        | ok c' =>
+          rw [hcv] at h; injection h with h; subst h
+          simp [enrich, enrichConv_idem ns p.label cert c c' hcv]
+    | other => simp only at h; injection h with h; subst h; simp [enrich]
+
+/-- the name: only a webhook configuration is renamed, only with a certificate and only when the
+revision has an owner reference named like its package label; the new name depends on that owner
+reference alone — not on the revision, not on the name the package gave the object. So the
+revisions of one package (same package owner reference) address the SAME object, which is what
+lets an upgrade take the object over instead of creating a second one. -/
+theorem enrich_name (ns cert : String) (p : EParent) (o o' : PObj) (h : enrich ns cert p o = .ok o') :
+    o'.name =
+      (match o.shape with
+       | .validating _ | .mutating _ =>
+         if cert = "" then o.name else (match pkgOwner p with | some q => webhookName q | none => o.name)
+       | _ => o.name) := by
+  unfold enrich at h
+  cases o with
+  | mk name labels shape rest =>
+    cases shape with
+    | validating hs =>
+      simp only at h ⊢
+      by_cases hc : cert = ""
+      · rw [if_pos hc] at h; injection h with h; subst h; simp [hc]
+      · rw [if_neg hc] at h; injection h with h; subst h
+        show enrichName p name = if cert = "" then name else _
+        rw [if_neg hc]; rfl
+    | mutating hs =>
+      simp only at h ⊢
+      by_cases hc : cert = ""
+      · rw [if_pos hc] at h; injection h with h; subst h; simp [hc]
+      · rw [if_neg hc] at h; injection h with h; subst h
+        show enrichName p name = if cert = "" then name else _
+        rw [if_neg hc]; rfl
+    | crd c =>
+      cases c with
+      | none => simp only at h; injection h with h; subst h; rfl
+      | some c =>
+        simp only at h
+        cases hcv : enrichConv ns p.label cert c with
+        | error e => rw [hcv] at h; cases h
+        | ok c' => rw [hcv] at h; injection h with h; subst h; rfl
+    | other => simp only at h; injection h with h; subst h; rfl
+
+/-- an inactive parent (`control = false`) never calls `enrichControlledResource`: the object it
+looks up and becomes a plain owner of is the parser's object, labels apart -/
+theorem prepare_inactive (ns crt : String) (t : Tls) (p : EParent) (o : PObj) :
+    prepare ns crt t false p o = .ok { o with labels := addLabels p.common o.labels } := rfl
+
+/-- `addLabels`: every common label of the parent is on the object afterwards (keys of a map are
+unique), every other label of the object is kept, and an object without labels gets exactly the
+parent's (nil stays nil) -/
+theorem addLabels_spec (common : List (String × String)) (labels : List (String × String))
+    (hu : common.Pairwise (fun a b => a.1 ≠ b.1)) :
+    ∃ r, addLabels (some common) (some labels) = some r ∧
+      (∀ k v, (k, v) ∈ common → getLabel r k = some v) ∧
+      (∀ k, (∀ kv ∈ common, kv.1 ≠ k) → getLabel r k = getLabel labels k) :=
+  ⟨_, rfl, fun k v hm => lookup_foldl_mem common k v hu hm labels,
+    fun k hk => lookup_foldl_other common k hk labels⟩
+
+theorem addLabels_nil (common : Option (List (String × String))) (labels : List (String × String)) :
+    addLabels common none = common ∧ addLabels none (some labels) = some labels := ⟨rfl, rfl⟩
+
+/-- `pkgOwner` (the owner reference a webhook configuration is named after) and `pkgRef` (the owner
+reference every established object gets as a plain owner, sections 2 and 4) are the SAME owner
+reference of the revision — both are `GetPackageOwnerReference`: the first one whose name is the
+value of the label pkg.crossplane.io/package -/
+theorem pkgOwner_is_pkgRef (p : Parent) (kind : PRef → String) (common : Option (List (String × String))) :
+    ∃ r : Option PRef, r = p.owners.find? (fun r => r.name = p.label) ∧
+      pkgRef p = r.map (fun r => { r.ref with controller := some false }) ∧
+      pkgOwner (eparentOf p kind common) = r.map (fun r => ⟨kind r, r.name⟩) :=
+  ⟨_, rfl, rfl, find_map_name p.owners kind p.label⟩
+
+/-- **The API-level model is a sound abstraction of the structured pipeline.** One goroutine of
+`validate` run on a structured package object (`validateOneP`: `enrichControlledResource`, then the
+Get and the dry run on the rewritten object) IS `validateOne` of Model/C16.lean run on the
+abstract object `⟨kind/NAME AFTER REWRITING, content after rewriting (any encoding), needsCA⟩` with
+`needsCA` read off the structured object — for every rejection predicate, fault plan, store,
+encoding and object, and every secret whose certificate is not empty. So sections 1–10
+(`all_or_nothing` with its third disjunct `d.needsCA ∧ p.tls ≠ present`, the role laws, …) speak
+about webhook configurations and conversion CRDs as they are submitted. -/
+theorem validateOneP_refines (rejects : Obj → Bool) (fault : Fault) (ns crt : String) (enc : PObj → Nat)
+    (kind : String) (p : Parent) (ep : EParent) (control : Bool) (s : Store) (i : Nat) (o : PObj)
+    (hcrt : crt ≠ "") :
+    validateOneP rejects fault ns crt enc kind p ep control s i o =
+      validateOne rejects fault p control s i
+        (desiredOfP enc kind ((prepare ns crt p.tls control ep o).toOption.getD o) (needsCAOf o)) := by
+  have hg := validate_guard_is_enrich ns crt p.tls control ep o hcrt
+  unfold validateOneP validateOne
+  cases hp : prepare ns crt p.tls control ep o with
+  | error e =>
+    have : (control && (desiredOfP enc kind ((Except.error e : Except Err PObj).toOption.getD o) (needsCAOf o)).needsCA
+        && p.tls != .present) = true := hg.mp ⟨e, hp⟩
+    rw [if_pos this]
+  | ok o' =>
+    have : ¬ (control && (desiredOfP enc kind ((Except.ok o' : Except Err PObj).toOption.getD o) (needsCAOf o)).needsCA
+        && p.tls != .present) = true := fun h => by
+      obtain ⟨e, he⟩ := hg.mpr h
+      rw [hp] at he; cases he
+    rw [if_neg this]
+    rfl
+
+/-! ### the tie to the code -/
+
+theorem enrich_constants_match_code :
+    servicePort = Xp.Gen.c16ServicePort ∧ webhookStrategy = Xp.Gen.c16WebhookStrategy := by decide
+
+def ccOfGen (c : Xp.Gen.C16CC) : CC :=
+  ⟨c.url, c.service.map fun s => ⟨s.name, s.ns, s.path, s.port⟩, c.caBundle⟩
+
+def pobjOfGen (o : Xp.Gen.C16PObj) : PObj :=
+  let hooks : List Hook := o.hooks.map fun h => ⟨h.name, ccOfGen h.cc, h.rest⟩
+  let conv : Option Conv := o.conv.map fun c =>
+    ⟨c.strategy, c.webhook.map fun w => ⟨w.cc.map ccOfGen, w.reviewVersions⟩⟩
+  ⟨o.name, o.labels,
+    if o.kind = "VWC" then .validating hooks else if o.kind = "MWC" then .mutating hooks
+    else if o.kind = "CRD" then .crd conv else .other,
+    o.rest⟩
+
+/-- labels are a map: equal as maps (the rows carry them sorted by key) -/
+def sameLabels : Option (List (String × String)) → Option (List (String × String)) → Bool
+  | none, none => true
+  | some a, some b => a.length == b.length && b.all fun kv => getLabel a kv.1 == some kv.2
+  | _, _ => false
+
+def sameObj (a b : PObj) : Bool :=
+  a.name == b.name && a.shape == b.shape && a.rest == b.rest && sameLabels a.labels b.labels
+
+set_option maxRecDepth 100000 in
+/-- every row of the table — produced by running `addLabels` and (for a controlling parent)
+`enrichControlledResource` of the current tree on 14 objects (webhook configurations with 0–3
+webhooks whose client configs have a service with a path / a service with a port and an old CA
+bundle / a URL / nothing; CRDs without conversion, with strategy None (with and without a
+left-over webhook section), with strategy Webhook and no / an empty / a partial / a full webhook
+section; a Composition) x 4 parents (package owner found / found after an owner whose name merely
+starts with the package's name and before a second one of that name / not found / no label) x
+{certificate, no certificate, inactive} — is reproduced by the model -/
+theorem prepare_matches_code :
+    Xp.Gen.c16EnrichTable.all (fun r =>
+      match prepareC r.ns r.cert r.control ⟨r.label, r.owners.map fun kn => ⟨kn.1, kn.2⟩, r.common⟩ (pobjOfGen r.obj), r.out with
+      | .ok o', some e => sameObj o' (pobjOfGen e)
+      | .error _, none => true
+      | _, _ => false) = true := by
+  decide
+
+/-! ### owner references: `create` and `update` themselves
+
+Section 5 ties the library helpers; these two tables tie their COMPOSITION in
+`APIEstablisher.create` / `APIEstablisher.update` — which references a new object gets, which of
+current / desired is submitted by an update, with which references and resourceVersion, and when
+it refuses without a call — to `createRefs` / `updateSub`, by running the two functions of the
+current tree over a recording client: 3 parents (package owner found; not found; found as the
+second of three, after one whose name merely starts with the label and before another of the same
+name) x control x every list of at most two references over {package, the revision itself, a
+stranger} x controller ∈ {nil,false,true}. -/
+
+def parentOfGen (c : String × List (String × Xp.Gen.C16Ref)) : Parent :=
+  { uid := 7, label := c.1, owners := c.2.map fun nr => ⟨nr.1, ofGen nr.2⟩ }
+
+set_option maxRecDepth 100000 in
+theorem create_matches_code :
+    Xp.Gen.c16CreateTable.all (fun r =>
+      match Xp.Gen.c16OwnerParents[r.1]? with
+      | some pc => createRefs (parentOfGen pc) == r.2.map ofGen
+      | none => false) = true := by
+  decide
+
+set_option maxRecDepth 100000 in
+theorem update_matches_code :
+    Xp.Gen.c16UpdateTable.all (fun r =>
+      match Xp.Gen.c16OwnerParents[r.1]? with
+      | none => false
+      | some pc =>
+        match updateSub (parentOfGen pc) r.2.1 ⟨"k", 5, r.2.2.1.map ofGen, 1⟩ ⟨"k", 0, [], 2⟩, r.2.2.2 with
+        | .ok sub, some (isDesired, carriesRv, refs) =>
+          sub.body == (if isDesired then 2 else 1) && (sub.rv == 5) == carriesRv && sub.owners == refs.map ofGen
+        | .error _, none => true
+        | _, _ => false) = true := by
+  decide
+
+section EnrichExamples
+
+def exProv : EParent := ⟨"prov", [⟨"Lock", "provx"⟩, ⟨"Provider", "prov"⟩], some [("team", "a")]⟩
+def exVWC : PObj :=
+  ⟨"validating-webhook-configuration", some [("team", "b"), ("x", "1")],
+   .validating [⟨"h0", ⟨none, some ⟨"webhook-service", "system", some "/validate", none⟩, ""⟩, 10⟩], 7⟩
+def exConvCRD : PObj := ⟨"things.example.org", none, .crd (some ⟨"Webhook", none⟩), 3⟩
+
+/-- an active provider revision with its certificate: the webhook configuration is renamed after
+the package and its webhook points at the package's service; path, webhook name and everything
+else stay; the common label wins over the object's own -/
+example :
+    (prepare "xp" "CERT" .present true exProv exVWC).toOption =
+      some ⟨"crossplane-provider-prov", some [("team", "a"), ("x", "1")],
+           .validating [⟨"h0", ⟨none, some ⟨"prov", "xp", some "/validate", some 9443⟩, "CERT"⟩, 10⟩], 7⟩ := by decide
+
+/-- the hypotheses of `enrich_frame` / `enrich_result` / `enrich_name` hold non-trivially, and the
+frame discriminates: it does see a change of a webhook's `rest` or of `service.path` -/
+example : ∃ o', enrich "xp" "CERT" exProv exVWC = .ok o' ∧ o' ≠ exVWC ∧ o'.frame = exVWC.frame := by
+  refine ⟨_, rfl, ?_, ?_⟩ <;> decide
+example :
+    ({ exVWC with shape := .validating [⟨"h0", ⟨none, some ⟨"webhook-service", "system", some "/other", none⟩, ""⟩, 10⟩] } : PObj).frame
+      ≠ exVWC.frame := by decide
+
+/-- no certificate (the secret is not named): the webhook configuration passes untouched, the CRD
+with webhook conversion is refused — `validate_guard_is_enrich` on both sides -/
+example : (prepare "xp" "CERT" .noName true exProv { exVWC with labels := none }).toOption =
+    some { exVWC with labels := some [("team", "a")] } := by decide
+example : (prepare "xp" "CERT" .noName true exProv exConvCRD).toOption = none := by decide
+example : (prepare "xp" "CERT" .present true exProv exConvCRD).toOption.map (·.shape) =
+    some (.crd (some ⟨"Webhook", some ⟨some ⟨none, some ⟨"prov", "xp", none, some 9443⟩, "CERT"⟩, []⟩⟩)) := by decide
+
+/-- an inactive revision does not enrich: it looks the webhook configuration up under the name the
+package gave it -/
+example : (prepare "xp" "CERT" .present false exProv exVWC).toOption.map (·.name) =
+    some "validating-webhook-configuration" := by decide
+
+/-- `validateOneP_refines` on the conversion CRD: no certificate — refused before any call; with the
+certificate — a dry-run create of the rewritten object (nothing stored, the goroutine succeeds) -/
+example :
+    validateOneP (fun _ => false) Fault.none "xp" "CERT" (fun o => o.rest) "CRD"
+      { uid := 31, label := "prov", owners := [], tls := .noName } exProv true ⟨[], 1, []⟩ 0 exConvCRD =
+      (⟨[], 1, []⟩, .err .other) := by decide
+example :
+    (validateOneP (fun _ => false) Fault.none "xp" "CERT" (fun o => o.rest) "CRD"
+      { uid := 31, label := "prov", owners := [], tls := .present } exProv true ⟨[], 1, []⟩ 0 exConvCRD).2 =
+      .ok ⟨⟨"CRD/things.example.org", 0, [⟨31, some true, some true⟩], 3⟩, none⟩ := by decide
+
+/-- `addLabels_spec` is satisfiable -/
+example : addLabels (some [("team", "a"), ("y", "2")]) (some [("x", "1"), ("team", "b")]) =
+    some [("x", "1"), ("team", "a"), ("y", "2")] := by decide
+
+end EnrichExamples
 
 end Xp.C16
